@@ -261,7 +261,7 @@ fn run<P: Payload>(args: &[String], prop: &str, seed: u64, build: &str, prof: Pr
     }
     // hang supervisor: a single case normally takes well under a second
     {
-        let limit: u64 = std::env::var("ITV_HANG_SECS").ok().and_then(|s| s.parse().ok()).unwrap_or(300);
+        let limit: u64 = std::env::var("ITV_HANG_SECS").ok().and_then(|s| s.parse().ok()).unwrap_or(180);
         let (prop_s, build_s) = (prop.to_string(), build.to_string());
         std::thread::spawn(move || loop {
             std::thread::sleep(std::time::Duration::from_millis(1000));
